@@ -229,8 +229,9 @@ func checkCase(c Case) (Outcome, error) {
 	out.Kinds = kindsOf(changes)
 	plan, err := db.Plan(ctx, changes)
 	if err != nil {
-		out.Rejected = "plan-time refusal: " + firstWords(err.Error())
-		return out, nil
+		// every schema of the model is within the supported feature set, and the SQLite planner has no refusal of its own
+		// for such changes (its errors are all of the "unexpected / unsupported change" kind): no plan = no convergence
+		return out, fmt.Errorf("PlanChanges failed for a change set between two supported schemas: %v (changes: %v)", err, out.Kinds)
 	}
 	out.Stmts = len(plan.Changes)
 	out.Path = pathOf(changes, plan.Changes)
